@@ -220,12 +220,48 @@ def units():
               "psf_get_max_all_channels", "broadcast_var_set", "broadcast_var_get", "cart_var_set", "cart_var_get",
               "psf_get_cues", "psf_cues_dup", "psf_instrument_alloc", "dither_init", "float32_init", "double64_init",
               "sf_seek", "psf_fseek", "psf_ftruncate"]
-    U.append({"name": "sndfile.sf_command", "props": ["C17", "C09", "C11", "C12", "C19"], "harness": "sndfile_command.harness.c",
+    # one unit per command id of the public header (parsed from include/sndfile.h on every run) with the id
+    # concrete and everything else symbolic, plus a sample of undefined ids
+    import os, re as _re
+    hdr = open(os.path.join(os.environ.get("VERIF_REPO", "/repo"), "include", "sndfile.h"), errors="replace").read()
+    ids = _re.findall(r"^\s*(SFC_[A-Z0-9_]+)\s*=\s*0x[0-9A-Fa-f]+", hdr, _re.M)
+    ids = [i for i in dict.fromkeys(ids)]
+    undefined = [("undef_0", "0"), ("undef_7777", "0x7777"), ("undef_neg1", "(-1)"), ("undef_1003", "0x1003"), ("undef_max", "0x7fffffff")]
+    for nm, val in [(i, i) for i in ids] + undefined:
+        u = dict({"name": "sndfile.sf_command", "props": ["C17", "C09", "C11", "C12", "C19"], "harness": "sndfile_command.harness.c",
               "entry": "h_command", "enforce": "sf_command", "function": "sndfile.c:sf_command", "replace": callee,
               "gi_flags": [], "cbmc_flags": ["--object-bits", "12"], "timeout": 1200, "mem_gb": 16,
+              "loops": {"sf_command": [{"loop_id": 0, "assigns_locals": True,
+                        "invariants": "__CPROVER_same_object (iptr, data) && (int *) data <= iptr && iptr <= (int *) data + psf->sf.channels",
+                        "decreases": "(int *) data + psf->sf.channels - iptr"}]},
               "trusted": ["E1 snprintf/strlen models (spec/env_stubs.h, units/sndfile_command.harness.c)",
                           "psf_log_printf (variadic, cannot be instrumented): assumed to write only psf->parselog",
                           "callee contracts of command.c / broadcast.c / cart.c / cues: bytes of `data` touched <= datasize (enforced where a unit exists)"]})
+        u["name"] = "sndfile.sf_command." + nm
+        u["defines"] = ["-DCMD_FIXED=%s" % val]
+        u["timeout"] = 600
+        u["mem_gb"] = 8
+        u["kind"] = "proof (command id enumerated from the public header; datasize, data, handle state symbolic)" if nm == val \
+            else "enumerated(sample of undefined command ids)"
+        u["backend"] = "kissat"
+        if nm in ("SFC_SET_VBR_ENCODING_QUALITY", "SFC_SET_OGG_PAGE_LATENCY_MS"):
+            u["enforce_rec"] = True
+            u["tier"] = "thorough"
+            u["timeout"] = 3600
+        if nm in ("SFC_GET_CHANNEL_MAP_INFO", "SFC_SET_CHANNEL_MAP_INFO", "SFC_SET_ADD_PEAK_CHUNK", "SFC_CALC_MAX_ALL_CHANNELS",
+                  "SFC_CALC_NORM_MAX_ALL_CHANNELS", "SFC_GET_MAX_ALL_CHANNELS"):
+            # sizes proportional to the channel count: enumerate it (symbolic-size memcpy/calloc are out of reach)
+            for ch in (1, 2, 3, 8, 1024):
+                v = dict(u)
+                v["name"] = u["name"] + ".ch%d" % ch
+                v["defines"] = u["defines"] + ["-DFIX_CH=%d" % ch, "-DMODEL_MEMCPY"]
+                v["kind"] = "enumerated(channels=%d)" % ch
+                v["tier"] = "quick" if (ch in (2, 3) and nm not in ("SFC_SET_CHANNEL_MAP_INFO", "SFC_SET_ADD_PEAK_CHUNK")) else "thorough"
+                if nm in ("SFC_SET_CHANNEL_MAP_INFO", "SFC_SET_ADD_PEAK_CHUNK"):
+                    v["timeout"] = 3600
+                U.append(v)
+            continue
+        U.append(u)
     for kind in ("read", "write"):
         for T in TYPES:
             for framesv in (False, True):
